@@ -49,8 +49,88 @@ fn lookup(names: &[&str], types: &[&str], order: &[usize], query: &str) -> Got {
     }
 }
 
+/// N5: the state handed back by `with_input` -- with the result (INPUT_OUTCOME=Ok) or with the error of a failed push
+/// (INPUT_OUTCOME=Err: the destination stack is full) -- still resolves every declared input.
+fn inputs_kept(names: &[&str], types: &[&str], query: &str, fail: bool) -> Result<(), String> {
+    // maximum 1 per stack; for the failing case the queried input's stack already holds one value
+    let qi = names.iter().position(|n| *n == query).ok_or("query not declared")?;
+    macro_rules! bind_all {
+        ($b:expr) => {{
+            let mut b = $b;
+            for i in 0..names.len() {
+                b = match types[i] {
+                    "bool" => b.with_bool_input(names[i], i % 2 == 0),
+                    "float" => b.with_float_input(names[i], OrderedFloat(i as f64 + 0.5)),
+                    _ => b.with_int_input(names[i], 100 + i as i64),
+                };
+            }
+            b.with_instruction_step_limit(3).build()
+        }};
+    }
+    let _ = qi;
+    let st = if fail {
+        // every stack is full (maximum 1, one value each): the push of the input's value must fail
+        bind_all!(PushState::builder()
+            .with_max_stack_size(1)
+            .with_no_program()
+            .with_bool_values([true])
+            .map_err(|e| format!("{e:?}"))?
+            .with_float_values([OrderedFloat(1.0)])
+            .map_err(|e| format!("{e:?}"))?
+            .with_int_values([1])
+            .map_err(|e| format!("{e:?}"))?)
+    } else {
+        bind_all!(PushState::builder().with_max_stack_size(1).with_no_program())
+    };
+    let before = st.clone();
+    let name = VariableName::from(query);
+    let back = match st.with_input(&name) {
+        Ok(s) => {
+            if fail {
+                return Err("the push onto a full stack succeeded".into());
+            }
+            s
+        }
+        Err(e) => {
+            if !fail {
+                return Err("the push failed although the stack had room".into());
+            }
+            let s = push::error::into_state::IntoState::into_state(e);
+            if s != before {
+                return Err(format!("REPLAY-VIOLATION: the state carried by the error differs from the state before the input instruction: {s:?} vs {before:?}"));
+            }
+            s
+        }
+    };
+    // every declared input still resolves in the state handed back
+    for n in names {
+        let nm = VariableName::from(*n);
+        let s2 = back.clone();
+        let r = catch_unwind(AssertUnwindSafe(move || {
+            let _ = s2.with_input(&nm);
+        }));
+        if r.is_err() {
+            return Err(format!("REPLAY-VIOLATION: input {n:?} is no longer defined in the state handed back by with_input({query:?})"));
+        }
+    }
+    Ok(())
+}
+
 #[test]
 fn input_replay() {
+    if let Ok(outcome) = std::env::var("INPUT_OUTCOME") {
+        let names_s = std::env::var("INPUT_NAMES").unwrap_or_default();
+        let types_s = std::env::var("INPUT_TYPES").unwrap_or_default();
+        let query = std::env::var("INPUT_QUERY").unwrap_or_default();
+        let names: Vec<&str> = names_s.split(',').filter(|s| !s.is_empty()).collect();
+        let types: Vec<&str> = types_s.split(',').filter(|s| !s.is_empty()).collect();
+        std::panic::set_hook(Box::new(|_| {}));
+        let r = inputs_kept(&names, &types, &query, outcome == "Err");
+        let _ = std::panic::take_hook();
+        println!("inputs kept after with_input({query:?}) with outcome {outcome}: {r:?}");
+        assert!(r.is_ok(), "{r:?}");
+        return;
+    }
     let names_s = std::env::var("INPUT_NAMES").unwrap_or_default();
     let types_s = std::env::var("INPUT_TYPES").unwrap_or_default();
     let query = std::env::var("INPUT_QUERY").unwrap_or_default();
